@@ -14,9 +14,10 @@ pub const EVAL_BOUND: i32 = 20000;
 // ---- models (arbitrary permutation; arbitrary non-negative history scores; no-op age/record)
 /// when set, the ordering model is the identity (used by the relational determinism harnesses, where
 /// an arbitrary permutation would make the two runs differ by construction)
-pub static mut ORDER_IDENTITY: bool = false;
+pub struct Hc { pub magic: u64, pub order_identity: bool }
+pub static mut HC: Hc = Hc { magic: 0x5EED_4C4C_0BAD_F00D, order_identity: false };
 pub fn permute(moves: &mut [Move]) {
-    if unsafe { ORDER_IDENTITY } { return; }
+    if unsafe { HC.order_identity } { return; }
     let n = moves.len();
     if n >= 2 && sym::bool() { moves.swap(0, 1); }
     if n >= 3 { if sym::bool() { moves.swap(1, 2); } if sym::bool() { moves.swap(0, 1); } }
@@ -27,7 +28,7 @@ pub fn stub_age(_h: &mut HistoryTable) {}
 pub fn stub_record(_h: &mut HistoryTable, _m: &Move, _d: u8) {}
 pub fn stub_get_score(_h: &HistoryTable, _m: &Move) -> i32 { 0 }
 pub fn stub_to_algebraic(m: Move) -> String {
-    unsafe { crate::out::LAST_RENDERED = Some(m); }
+    unsafe { crate::out::OUT.last_rendered = Some(m); }
     String::from(match m.to { 0 => "m0", 1 => "m1", _ => "m2" })
 }
 
@@ -67,7 +68,8 @@ pub fn setup_game(b: usize, l: usize) {
     set_shape(b, l);
     gm().white_root = sym::bool();
     for_nodes!(setup_node);
-    unsafe { STOP_AT = u32::MAX; USE_HASH2 = false; FIRST_GEN_KIND = 0; ORDER_IDENTITY = false; }
+    unsafe { CLK.stop_at = u32::MAX; CLK.use_hash2 = false; CLK.first_gen_kind = 0; HC.order_identity = false; }
+    reset_clock();
     crate::out::reset();
     #[cfg(not(kani))]
     describe();
@@ -83,7 +85,9 @@ pub fn describe() {
 
 // ---- oracle: plain minimax with the engine's quiescence definition at the horizon.
 // Node ids and levels are concrete here (the recursion enumerates children by concrete index).
-pub fn lvl_of(n: usize) -> usize { let mut l = 0; let mut f = 0; let mut w = 1; while l <= levels() { if n < f + w { return l; } f += w; w *= br(); l += 1; } l }
+pub fn lvl_of(n: usize) -> usize {
+    if n < first_of_level(1) { 0 } else if n < first_of_level(2) { 1 } else if n < first_of_level(3) { 2 } else if n < first_of_level(4) { 3 } else { 4 }
+}
 pub fn has_moves_at(n: usize, lvl: usize) -> bool { lvl < levels() && g().nmoves[n] > 0 }
 pub fn has_moves(n: usize) -> bool { has_moves_at(n, lvl_of(n)) }
 pub fn qvalue_at(n: usize, lvl: usize) -> i64 {
